@@ -14,7 +14,7 @@ from typing import Dict, List, Optional, Tuple
 import common
 import spec as S
 
-GEN_VERSION = "11"
+GEN_VERSION = "12"
 
 STRUM_DERIVES = ["EnumString", "Display", "AsRefStr", "IntoStaticStr", "VariantNames", "EnumIter", "EnumCount", "FromRepr",
                  "VariantArray", "EnumDiscriminants", "EnumIs", "EnumTryAs", "EnumMessage", "EnumProperty", "EnumTable",
@@ -455,6 +455,27 @@ def family_overlap(start: int) -> List[E]:
     return out
 
 
+def family_placeholders(start: int) -> List[E]:
+    """Family A4 (C17): placeholder literals in every positional order, with format specs, repeated and unused fields."""
+    out = []
+    sets = [
+        [("Asc", "tuple", ["u8", "u8"], "hue {0}, sat {1}"), ("Desc", "tuple", ["u8", "u8"], "hue {1}, sat {0}"), ("Rot", "tuple", ["u8", "i32", "u8"], "{2}{0}{1}{2}"),
+         ("Spec", "tuple", ["u8", "u8"], "{1:>4}|{0:03}"), ("One", "tuple", ["u8"], "{0}{0}{0}"), ("Fixed", "tuple", ["u8", "u8"], "no placeholders here")],
+        [("NamedSwap", "named", [("a", "u8"), ("b", "u8")], "{b} then {a}"), ("NamedTwice", "named", [("a", "u8"), ("b", "u8")], "{a}{a}"), ("NamedSpec", "named", [("w", "u8"), ("h", "i32")], "rect {w:>3}x{h:+}"),
+         ("NamedEsc", "named", [("a", "u8")], "{{a}}={a}"), ("NamedFixed", "named", [("a", "u8")], "fixed {{}} name"), ("Unit", "unit", [], "plain unit")],
+        [("Width", "tuple", ["u8", "usize"], "{0:>1$}"), ("Dbg", "tuple", ["u8", "Txt"], "{1:?}/{0:#x}"), ("Last", "tuple", ["Txt", "u8", "u8"], "{2}-{1}-{0}")],
+    ]
+    for i, vs_ in enumerate(sets):
+        vs = []
+        for nm, kind, fields, lit in vs_:
+            fl = [(None, t) for t in fields] if kind == "tuple" else (list(fields) if kind == "named" else [])
+            vs.append(V(nm, kind, fl, [["to_string = %s" % rstr(lit)]]))
+        for j, extra in enumerate(([], ["prefix = \"px:\""])):
+            out.append(E("Plh%04d" % (start + 2 * i + j), "placeholders", ["Display", "EnumString"], [V(v.name, v.kind, list(v.fields), [list(a) for a in v.attrs]) for v in vs],
+                         attrs=[extra] if extra else [], std_derives=["Clone", "Debug"]))
+    return out
+
+
 def family_casing(rng: random.Random, start: int, idents: List[str], styles: List[Optional[str]], per_enum: int = 8) -> List[E]:
     """Family C: identifier dictionary x every accepted style string."""
     out = []
@@ -762,6 +783,7 @@ def generate(tier: str, seed: int) -> List[E]:
     es += family_strings(rng, 70 if tier == "quick" else 400, 1)
     es += family_unit_strings(rng, 24 if tier == "quick" else 120, 1)
     es += family_overlap(1)
+    es += family_placeholders(1)
     es += family_casing(rng, 1, IDENT_DICT, STYLES)
     es += family_iter(rng, 1, tier == "thorough")
     es += family_messages(rng, 1, 24 if tier == "quick" else 96)
